@@ -298,6 +298,19 @@ fn injection_cases() -> Vec<Case> {
     st("make ox9 get 1 start do fo9(ox9) start return ox9 end make so9 get fo9(\"abc\") shout(so9.len()) end", Expect::Valid);
     st("make oy9 get 1 start do go9() start make oy9 get \"st\" return oy9 end shout(go9().len()) end shout(oy9)", Expect::Valid);
     st("make oz9 get \"s\" start do ho9(oz9) start return oz9 end shout(ho9(3) minus 1) end shout(oz9)", Expect::Valid);
+    // ... nor from an outer variable when the defining block declares its own (before or after the definition)
+    st("make bv9 get \"outer\" start make bv9 get 5 do fb9() start return bv9 end shout(fb9() minus 1) end shout(bv9)", Expect::Valid);
+    st("make bw9 get \"outer\" start do fc9() start return bw9 end make bw9 get 5 shout(fc9() minus 1) end shout(bw9)", Expect::Valid);
+    st("make bx9 get null do outer9() start make bx9 get [1] do inner9() start return bx9 end make q9 get inner9() q9.push(2) return q9 end shout(outer9())", Expect::Valid);
+    // ... nor through an outer function when the body defines its own of the same name
+    st("do lab9() start return \"root\" end do use9() start do lab9() start return 5 end return lab9() end shout(use9() minus 1) shout(lab9())", Expect::Valid);
+    // a function that can fall off its end returns null there
+    st("do fe9(a9) start if to say (a9 pass 10) start return 1 end end if to say (not fe9(5)) start shout(1) end", Expect::Valid);
+    st("do ff9(a9) start if to say (a9 pass 10) start return true end end shout(ff9(5) or true)", Expect::Valid);
+    // a variable declared without a value has no declared type
+    st("make ux9 ux9 get 5 shout(ux9 minus 1)", Expect::Valid);
+    st("make un9 get null un9 get [1] un9.push(2) shout(un9[0])", Expect::Valid);
+    st("make uy9 uy9 get \"abc\" shout(uy9.len())", Expect::Valid);
 
     // expression snippets (embedded three ways)
     let mut exprs: Vec<(String, Expect)> = Vec::new();
